@@ -125,6 +125,24 @@ def task_wrapper(arg):
         if why:
             out.violation(f"wrong-rounding:{name}:{want['direction']}:{want['base']}", {**case, "value": v, "result": r}, f"{name} on {ds}: {why}")
             break
+    # a missing or infinite value in one row must not change how the OTHER rows are rounded (rounding is per value)
+    probe_vals = vals[:: max(len(vals) // 12, 1)]
+    for special, sname in ((np.nan, "nan"), (np.inf, "inf"), (-np.inf, "-inf")):
+        for pos in ("first", "last"):
+            col = [special, *probe_vals] if pos == "first" else [*probe_vals, special]
+            try:
+                res2 = np.asarray(wrapped(np.array(col, dtype=float)), dtype=float).tolist()
+            except Exception as e:  # noqa: BLE001
+                out.violation(f"wrapper-raises-with-{sname}-row:{name}", {**case, "special": sname}, repr(e)[:200])
+                continue
+            res2 = res2[1:] if pos == "first" else res2[:-1]
+            for v, r in zip(probe_vals, res2):
+                out.step()
+                why = judge(Fraction(v), r, want["base"], want["direction"], want.get("to_add_after_rounding"))
+                if why:
+                    out.violation(f"wrong-rounding-next-to-{sname}-row:{name}", {**case, "value": v, "result": r, "special": sname, "position": pos},
+                                  f"{name} on {ds} with a {sname} value in the {pos} row: {why}")
+                    break
     # other output kinds a rule can have: a Python / numpy scalar (parameter-only rules), an integer array, a short array
     def stub_of(value):
         def stub2():
@@ -313,6 +331,10 @@ def task_graph(arg):
 
 
 def replay(case):
+    if "special" in case:
+        part = task_wrapper((case["group"], case["rule"], case["date"]))
+        v = [x for x in part["violations"] if "-row:" in x[0]]
+        return not v, "; ".join(x[2] for x in v[:2])
     if "first_in_call" in case:
         part = task_wrapper_joint(case["date"])
         v = [x for x in part["violations"] if x[1].get("rule") == case["rule"]]
